@@ -27,7 +27,8 @@ LIVE = {'self', 'root', 'stmtlike', 'stmtlikea', 'parent', 'parenta'}
 # module-level helpers that are called as pure predicates: checked to be pure here (only reads: no attribute / subscript stores, no calls but len / getattr)
 PURE_HELPERS = {'_is_header_scaffold'}
 PURE_CALLS = {'FST', 'bistr', 'len', 'getattr', 'isinstance', 'walk', 'parent_stmtlike', 'is_elif', '_loc_block_header_end', '_get_block_indent', 'c2b', 'strip', 'lstrip',
-              'startswith', 'index', 'next', 'bool', 'child_path', 'Pass', '_code_as_lines', 'child_from_path', 'join', 'compare_asts', 'zip', 'parents', 'endswith'} | PURE_HELPERS
+              'startswith', 'index', 'next', 'bool', 'child_path', 'Pass', '_code_as_lines', 'child_from_path', 'join', 'compare_asts', 'zip', 'parents', 'endswith',
+              'next_frag'} | PURE_HELPERS        # next_frag: common.py text scan over the lines (regex matches, no stores): read-only
 RAISE_CALLS = {'fromsrc', 'parse_match_case', 'parse_ExceptHandler'}
 MUT_METHODS = {'_put_src', '_set_ast', '_touchall', '_touch', '_set_end_pos', '_unmake_fst_tree', 'set', 'append'}   # AMut or ACopy by receiver
 SETATTR = 'setattr'
